@@ -327,6 +327,8 @@ FUNCTIONS['VLOOKUP'] = wrap_ufunc(
 
 
 def xtranspose(array):
+    if not isinstance(array, np.ndarray):
+        array = np.asarray([[array]], object)  # Keeps an error an error.
     return np.transpose(array).view(Array)
 
 
